@@ -37,14 +37,14 @@ func genC07(t *rapid.T) C07Case {
 	c := C07Case{Kind: rapid.SampledFrom(streamKinds).Draw(t, "kind"), Ser: rapid.Bool().Draw(t, "ser")}
 	c.NC = rapid.IntRange(0, 4).Draw(t, "nc")
 	c.Close = rapid.Bool().Draw(t, "close")
-	c.NH = rapid.IntRange(0, 6).Draw(t, "nh")
+	c.NH = rapid.SampledFrom([]int{0, 1, 2, 3, 4, 5, 5, 6, 6}).Draw(t, "nh")
 	switch c.Kind {
 	case kit.KindServer:
 		c.NC, c.Close = 1, true
 	case kit.KindClient:
 		c.NH = 0
 	}
-	c.Read = rapid.IntRange(max(0, c.NH-5), c.NH).Draw(t, "read")
+	c.Read = c.NH - rapid.IntRange(0, min(5, c.NH)).Draw(t, "unread")
 	c.HTmpl = rapid.SampledFrom([]string{"recv-first", "echo", "send-first"}).Draw(t, "htmpl")
 	c.Deadline = rapid.Bool().Draw(t, "deadline")
 	if c.Deadline {
